@@ -111,7 +111,14 @@ def meanAbs [∀ a b : α, Decidable (a < b)] (l : List α) : α := mean (l.map 
 
 /-- one coordinate of `np.std(fc, axis=0) / np.mean(np.abs(fc), axis=0)`; `col` = that coordinate's value in
     every committee member -/
-def coefOfColumn [∀ a b : α, Decidable (a < b)] (col : List α) : α := std col / meanAbs col
+def coefOfColumnRaw [∀ a b : α, Decidable (a < b)] (col : List α) : α := std col / meanAbs col
+
+/-- the same after the repair: `np.divide(spread, magnitude, out=np.zeros_like(spread), where=magnitude != 0)` — on a
+    coordinate where every member gives exactly zero force the coefficient is 0 by the code's own branch (in `Float` the
+    raw quotient is `0/0 = nan`, and a `nan` delta never leaves the rejection loop of `ForceBias.step`; over the reals Lean's
+    `0/0 = 0` had hidden the difference). `magnitude` is a mean of absolute values, so `≠ 0` is `0 <`. -/
+def coefOfColumn [∀ a b : α, Decidable (a < b)] (col : List α) : α :=
+  if (Num.zero : α) < meanAbs col then std col / meanAbs col else Num.zero
 
 /-- the columns (axis-0 slices) of a `(K, 3N)` array given as `K` rows -/
 def columns (rows : List (List α)) : List (List α) :=
